@@ -106,6 +106,40 @@ Definition lget {X : Type} (l : list X) (i : Z) : option X :=
   let j := if i <? 0 then n + i else i in
   if (j <? 0) || (n <=? j) then None else nth_error l (Z.to_nat j).
 
+(* for pos, x in enumerate(l): body   where the body stores into l itself (`l[i] = e`
+   only, which the translator checks: the length cannot change).  Python's list
+   iterator reads l[pos] from the CURRENT list ([cur s]) and stops when pos is past
+   its end; n = the length of the list on entry bounds the number of iterations
+   (running out of it while the list still has an element at pos is [Raise], as for
+   `while`, so the combinator is sound whatever the body does) *)
+Section LiveLoops.
+Context {X R L L' : Type}.
+
+Fixpoint for_live (n : nat) (pos : Z) (s : L) (cur : L -> list X) (body : Z -> X -> L -> ctl R L L) : ctl R L' L :=
+  match lget (cur s) pos with
+  | None => Next s
+  | Some x =>
+      match n with
+      | O => Raise
+      | S n' =>
+          match body pos x s with
+          | Next s' | Continue s' => for_live n' (pos + 1) s' cur body
+          | Break s' => Next s'
+          | Return v => Return v
+          | Raise => Raise
+          end
+      end
+  end.
+
+Definition for_enum_live (l : list X) (s : L) (cur : L -> list X) (body : Z -> X -> L -> ctl R L L) : ctl R L' L :=
+  for_live (length l) 0 s cur body.
+
+(* for x in l: body   (same, without the position) *)
+Definition for_each_live (l : list X) (s : L) (cur : L -> list X) (body : X -> L -> ctl R L L) : ctl R L' L :=
+  for_live (length l) 0 s cur (fun _ => body).
+
+End LiveLoops.
+
 (* c = s[i] on a string *)
 Definition sub_s {R L St : Type} (s : str) (i : Z) (k : N -> ctl R L St) : ctl R L St :=
   match getc s i with None => Raise | Some c => k c end.
